@@ -13,7 +13,7 @@ from vcommon import Report, digest, die, run_dir, seed
 GROUP_PROP = {
     ("compose", "sound"): "C01", ("quotient", "sound"): "C02", ("merge", "exact"): "C08",
     ("compose", "keeps"): "C15", ("merge", "keeps"): "C15", ("compose", "exact"): "C15",
-    ("rename", "faithful"): "C16",
+    ("rename", "faithful"): "C16", ("renames", "faithful"): "C16", ("renames", "itf"): "C06",
     ("compose", "itf"): "C06", ("quotient", "itf"): "C06", ("merge", "itf"): "C06", ("rename", "itf"): "C06",
 }
 
